@@ -21,10 +21,12 @@
 (* reference memory is updated at the write response; bytes of a read that *)
 (* overlap in time a write to the same byte may carry either value ("2").  *)
 (*                                                                         *)
-(* c: lanes, words, init (master view, byte index adr*lanes+lane+1), k,    *)
+(* c: lanes, words, init (master view, byte index adr*lanes+lane+1),       *)
+(*    wwords / rwords (the words the master writes / reads), k,            *)
 (*    dirs ("w", "r", "rw"), walpha (list of <<strb, data>> the master     *)
 (*    uses), serial (1: the master has either writes or reads in flight,   *)
-(*    never both - used with the full data alphabet), readonly, badlo (0: none; else bytes with index >= badlo form *)
+(*    never both - used with the full data alphabet), awfirst (1: the      *)
+(*    master presents write data not before its address), readonly, badlo (0: none; else bytes with index >= badlo form *)
 (*    a faulting region, aligned to the widest word of the chain: accesses *)
 (*    to it are answered with an error by the backing slave)               *)
 (***************************************************************************)
@@ -54,11 +56,11 @@ NAcc   == Len(ms.rl) - (IF ArHeld THEN 1 ELSE 0)
 
 MInputs(c) ==
   LET AOpts == IF ms.aw # 0 THEN { ms.aw }
-               ELSE IF c.dirs # "r" /\ Len(ms.wa) < c.k THEN 0..c.words ELSE {0}
+               ELSE IF c.dirs # "r" /\ Len(ms.wa) < c.k THEN {0} \cup { c.wwords[j] + 1 : j \in 1..Len(c.wwords) } ELSE {0}
       WOpts == IF ms.w # 0 THEN { ms.w }
                ELSE IF c.dirs # "r" /\ Len(ms.wd) < c.k THEN 0..Len(c.walpha) ELSE {0}
       ROpts == IF ArHeld THEN { ms.rl[Len(ms.rl)][1] + 1 }
-               ELSE IF c.dirs # "w" /\ NAcc < c.k THEN 0..c.words ELSE {0}
+               ELSE IF c.dirs # "w" /\ NAcc < c.k THEN {0} \cup { c.rwords[j] + 1 : j \in 1..Len(c.rwords) } ELSE {0}
       BOpts(a, w) == IF (ms.wa # <<>> \/ a # 0) /\ (ms.wd # <<>> \/ w # 0) THEN {0, 1} ELSE {1}
       ROk(r) == IF ms.rl # <<>> \/ r # 0 THEN {0, 1} ELSE {1}
       WBusy == ms.wa # <<>> \/ ms.wd # <<>>
@@ -68,7 +70,8 @@ MInputs(c) ==
             IF w = 0 THEN 0 ELSE 1, IF w = 0 THEN 0 ELSE c.walpha[w][1], IF w = 0 THEN 0 ELSE c.walpha[w][2],
             b, IF r = 0 THEN 0 ELSE 1, IF r = 0 THEN 0 ELSE r - 1, rr>>
   IN UNION { UNION { { Vec(aw[1], aw[2], r, b, rr) : b \in BOpts(aw[1], aw[2]), rr \in ROk(r) } : r \in RFor(aw[1], aw[2]) } :
-             aw \in AOpts \X WOpts }
+             aw \in { x \in AOpts \X WOpts :
+                        c.awfirst = 1 => (x[2] # 0 => Len(ms.wd) + 1 <= Len(ms.wa) + (IF x[1] # 0 THEN 1 ELSE 0)) } }
 
 WIndex(c, strb, data) == CHOOSE i \in 1..Len(c.walpha) : c.walpha[i] = <<strb, data>>
 BadWord(c, a) == c.badlo > 0 /\ a * c.lanes + 1 >= c.badlo
